@@ -267,7 +267,30 @@ def shape(repo, run):
         out = eng.run(fn, [tuple()])
         nret = 0
         for (s, node) in out.ret:
-            if node.value is None or not isinstance(node.value, ast.Tuple):
+            if node.value is None:
+                continue
+            if not isinstance(node.value, ast.Tuple):
+                # a result passed through from another solver call: it has the shape of THAT call's initial guess, which must be this function's own x0
+                v = node.value
+                if isinstance(v, ast.Name):
+                    blk = getattr(node._parent, "body", [])
+                    for fld in ("body", "orelse", "finalbody"):
+                        if any(node is b for b in getattr(node._parent, fld, []) or []):
+                            blk = getattr(node._parent, fld)
+                    prev = [w for w in blk[:[i for i, b in enumerate(blk) if b is node][0]] if isinstance(w, ast.Assign) and any(
+                        isinstance(t, ast.Name) and t.id == v.id for t in w.targets)] if any(node is b for b in blk) else []
+                    if prev:
+                        v = prev[-1].value
+                if isinstance(v, ast.Call) and (dotted(v.func) or "") in ("hybrj", "newtontrustregion", "nonlinear_roots"):
+                    x0 = fn.args.args[1].arg
+                    a1 = v.args[1] if len(v.args) > 1 else next((k.value for k in v.keywords if k.arg == "x0"), None)
+                    ok = isinstance(a1, ast.Name) and a1.id == x0 and not any(
+                        isinstance(w, (ast.Assign, ast.AugAssign)) and any(isinstance(t, ast.Name) and t.id == x0 for t in ast.walk(w)) for w in walk_no_nested(fn))
+                    nret += 1
+                    run.judged(rid, "%s: `%s` passes a solver result through (guess given: %s)" % (q, src(node)[:50], src(a1)[:30] if a1 is not None else None), ok=ok)
+                    if not ok:
+                        run.report("C15.3", OPT, node, "%s returns the result of `%s` as it is although that call was given `%s`, not the caller's own initial guess: the root "
+                                                       "comes back with the shape of the transformed guess" % (q, dotted(v.func), src(a1)[:40] if a1 is not None else "?"))
                 continue
             first = node.value.elts[0]
             nret += 1
